@@ -276,7 +276,11 @@ inline Fields model_snapshot(NifFile& nif) {
 	// sharing a name are ranked by their content hash, so the labelling does not depend on block order.
 	auto emit_sorted = [&](const char* what, std::vector<std::pair<std::string, Fields>>& items) {
 		std::vector<std::tuple<std::string, uint64_t, size_t>> order;
-		for (size_t i = 0; i < items.size(); i++) order.emplace_back(items[i].first, hash_fields(items[i].second), i);
+		for (size_t i = 0; i < items.size(); i++) {
+			Fields h; // ranking ignores the child count, which legitimately changes when something is attached
+			for (auto& kv : items[i].second) if (kv.first != "children") h.push_back(kv);
+			order.emplace_back(items[i].first, hash_fields(h), i);
+		}
 		std::sort(order.begin(), order.end());
 		std::map<std::string, int> rank;
 		for (auto& o : order) {
